@@ -18,31 +18,16 @@ Proof.
     exfalso; eapply H; eauto.
 Qed.
 
-Lemma find_hunt_by_ip_some hint ip h t :
-  find_hunt_by_ip hint ip h = Some t -> In t h /\ aip t = ip.
-Proof.
-  unfold find_hunt_by_ip. intros H.
-  assert (Hin : In t (filter (fun e => aip e =? ip) h)).
-  { destruct (find _ _) eqn:F.
-    - inversion H; subst. apply find_some in F. tauto.
-    - destruct (filter _ h) eqn:G; simpl in H; inversion H; subst. left; reflexivity. }
-  apply filter_In in Hin. destruct Hin as [Hin He]. split; auto. lia.
-Qed.
+Lemma hunt_find_some m h t : hunt_find m h = Some t -> In t h /\ amac t = m.
+Proof. unfold hunt_find. intros H. apply find_some in H as [H1 H2]. split; auto. lia. Qed.
 
-Lemma find_hunt_by_ip_none hint ip h :
-  find_hunt_by_ip hint ip h = None <-> forall e, In e h -> aip e <> ip.
+Lemma hunt_find_none m h : hunt_find m h = None <-> hunt_has m h = false.
 Proof.
-  unfold find_hunt_by_ip. split.
-  - intros H e Hin He.
-    assert (Hf : In e (filter (fun e => aip e =? ip) h)) by (apply filter_In; split; auto; lia).
-    destruct (find _ _); try discriminate.
-    destruct (filter _ h); simpl in *; [contradiction | discriminate].
-  - intros H.
-    assert (Hf : filter (fun e => aip e =? ip) h = []).
-    { destruct (filter _ h) as [|x xs] eqn:G; auto.
-      assert (Hx : In x (filter (fun e => aip e =? ip) h)) by (rewrite G; left; reflexivity).
-      apply filter_In in Hx. destruct Hx as [Hx1 Hx2]. exfalso. apply (H x Hx1). lia. }
-    rewrite Hf. reflexivity.
+  unfold hunt_find. split.
+  - intros H. apply hunt_has_false. intros e Hin He.
+    apply (find_none _ _ H) in Hin. lia.
+  - intros H. destruct (find _ h) as [t|] eqn:F; auto.
+    apply find_some in F as [F1 F2]. rewrite hunt_has_false in H. exfalso. apply (H t F1). lia.
 Qed.
 
 Lemma hunt_del_in m h e : In e (hunt_del m h) <-> In e h /\ amac e <> m.
@@ -80,22 +65,23 @@ Proof. unfold forged, announce. simpl. rewrite !N.eqb_refl. reflexivity. Qed.
 (* ---------------------------------------------------------------- *)
 (* C13_confined: one step, any state *)
 
-Lemma wake_out c s i hint s' out f :
-  wake c s i hint = (s', out) -> In f out ->
+Lemma wake_out c s i s' out f :
+  wake c s i = (s', out) -> In f out ->
   exists lp, nth_error (loops s) i = Some lp /\ alive lp = true /\ closed s = false /\
-    ((exists t, find_hunt_by_ip hint (aip (laddr lp)) (hunt s) = Some t /\ f = announce c (amac t) /\ s' = s)
-     \/ (find_hunt_by_ip hint (aip (laddr lp)) (hunt s) = None /\ f = restore c (amac (laddr lp))
+    ((hunted s (amac (laddr lp)) = true /\ f = announce c (amac (laddr lp)) /\ s' = s)
+     \/ (hunted s (amac (laddr lp)) = false /\ f = restore c (amac (laddr lp))
          /\ s' = set_loops s (kill i (loops s)))).
 Proof.
   unfold wake. intros H Hin.
   destruct (nth_error (loops s) i) as [lp|] eqn:Hn; [|inversion H; subst; contradiction].
   destruct (alive lp) eqn:Ha; simpl in H; [|inversion H; subst; contradiction].
   exists lp. split; auto. split; auto.
-  destruct (find_hunt_by_ip hint (aip (laddr lp)) (hunt s)) as [t|] eqn:Hf;
+  destruct (hunt_find (amac (laddr lp)) (hunt s)) as [t|] eqn:Hf;
     destruct (closed s) eqn:Hc; inversion H; subst; try contradiction;
     destruct Hin as [Hin|[]]; subst f; (split; [reflexivity|]).
-  - left. exists t. auto.
-  - right. auto.
+  - left. apply hunt_find_some in Hf as [Hf1 Hf2]. rewrite Hf2. split; auto.
+    unfold hunted. apply hunt_has_spec. exists t. auto.
+  - right. apply hunt_find_none in Hf. auto.
 Qed.
 
 Lemma confined_step c s e s' out f :
@@ -108,9 +94,8 @@ Proof.
   - inversion Hs; subst; contradiction.
   - unfold stop_hunt in Hs. inversion Hs; subst; contradiction.
   - inversion Hs; subst; contradiction.
-  - destruct (wake_out _ _ _ _ _ _ _ Hs Hin) as [lp [_ [_ [_ [[t [Ht [Hfe _]]]|[_ [Hfe _]]]]]]].
-    + subst f. simpl. apply find_hunt_by_ip_some in Ht as [Ht _].
-      unfold hunted. apply hunt_has_spec. exists t. auto.
+  - destruct (wake_out _ _ _ _ _ _ Hs Hin) as [lp [_ [_ [_ [[Ht [Hfe _]]|[_ [Hfe _]]]]]]].
+    + subst f. simpl. exact Ht.
     + subst f. rewrite restore_not_forged in Hf by auto. discriminate.
   - unfold rx_arp in Hs. unfold known_C13_probe_router in Hk. destruct (classify p) eqn:Hcl;
       try (inversion Hs; subst; contradiction).
@@ -169,7 +154,7 @@ Qed.
 (* non-vacuity of confined_partial: a run with forged frames to hunted hosts outside the known class *)
 Definition wit_m1 : mac := 2199023255553.
 Definition wit_hunt_run : list event :=
-  [StartHunt (mkAddr wit_m1 3232235522); Wake 0 wit_m1;
+  [StartHunt (mkAddr wit_m1 3232235522); Wake 0;
    RxArp (mkPkt 1 wit_m1 wit_m1 3232235522 0 3232235531)].
 
 Example confined_nonvacuous :
@@ -263,18 +248,18 @@ Qed.
 
 (* what each step does to closed / hunt / loops *)
 
-Lemma wake_closed c s i h : closed (fst (wake c s i h)) = closed s.
+Lemma wake_closed c s i : closed (fst (wake c s i)) = closed s.
 Proof.
   unfold wake. destruct (nth_error (loops s) i) as [lp|]; auto.
   destruct (alive lp); simpl; auto.
-  destruct (find_hunt_by_ip _ _ _); destruct (closed s) eqn:E; simpl; auto.
+  destruct (hunt_find _ _); destruct (closed s) eqn:E; simpl; auto.
 Qed.
 
-Lemma wake_hunt c s i h : hunt (fst (wake c s i h)) = hunt s.
+Lemma wake_hunt c s i : hunt (fst (wake c s i)) = hunt s.
 Proof.
   unfold wake. destruct (nth_error (loops s) i) as [lp|]; auto.
   destruct (alive lp); simpl; auto.
-  destruct (find_hunt_by_ip _ _ _); destruct (closed s); simpl; auto.
+  destruct (hunt_find _ _); destruct (closed s); simpl; auto.
 Qed.
 
 Lemma rx_state c s p : fst (rx_arp c s p) = s.
@@ -333,12 +318,12 @@ Qed.
 Lemma kill_same l i lp : nth_error l i = Some lp -> nth_error (kill i l) i = Some (mkLoop (laddr lp) false).
 Proof. intros H. unfold kill. rewrite H. eapply nth_error_set_nth_eq; eauto. Qed.
 
-Lemma wake_loops_other c s i h j :
-  i <> j -> nth_error (loops (fst (wake c s i h))) j = nth_error (loops s) j.
+Lemma wake_loops_other c s i j :
+  i <> j -> nth_error (loops (fst (wake c s i))) j = nth_error (loops s) j.
 Proof.
   intros Hne. unfold wake. destruct (nth_error (loops s) i) as [lp|] eqn:E; auto.
   destruct (alive lp); simpl; auto.
-  destruct (find_hunt_by_ip _ _ _); destruct (closed s); simpl; auto; apply kill_other; auto.
+  destruct (hunt_find _ _); destruct (closed s); simpl; auto; apply kill_other; auto.
 Qed.
 
 Lemma step_loop_kept c s e i lp :
@@ -360,25 +345,29 @@ Proof.
   - apply step_loop_kept; auto.
 Qed.
 
-Lemma wake_dead_silent c s i h a : loop_is s i a false -> step c s (Wake i h) = (s, []).
+Lemma wake_dead_silent c s i a : loop_is s i a false -> step c s (Wake i) = (s, []).
 Proof. unfold loop_is. intros Hl. simpl. unfold wake. rewrite Hl. reflexivity. Qed.
 
 (* ---------------------------------------------------------------- *)
 (* C13_stop_undone *)
 
-Lemma stop_wake_restores c s i a hint :
+Lemma stop_wake_restores c s i a :
   loop_is s i a true -> closed s = false -> hunted s (amac a) = false ->
-  known_C13_shared_ip s i = false ->
-  step c s (Wake i hint) = (set_loops s (kill i (loops s)), [restore c (amac a)]).
+  step c s (Wake i) = (set_loops s (kill i (loops s)), [restore c (amac a)]).
 Proof.
-  unfold loop_is. intros Hl Hc Hh Hk. simpl. unfold wake. rewrite Hl. simpl.
-  unfold known_C13_shared_ip in Hk. rewrite Hl in Hk. simpl in Hk. rewrite Hh in Hk. simpl in Hk.
-  assert (Hf : find_hunt_by_ip hint (aip a) (hunt s) = None).
-  { apply find_hunt_by_ip_none. intros e Hin He.
-    assert (existsb (fun e0 => aip e0 =? aip a) (hunt s) = true).
-    { apply existsb_exists. exists e. split; auto. lia. }
-    congruence. }
-  rewrite Hf, Hc. reflexivity.
+  unfold loop_is. intros Hl Hc Hh. simpl. unfold wake. rewrite Hl. simpl.
+  apply hunt_find_none in Hh. rewrite Hh, Hc. reflexivity.
+Qed.
+
+(* while its MAC is hunted (and the handler open) a running loop announces to its own MAC and keeps running *)
+Lemma hunted_wake_announces c s i a :
+  loop_is s i a true -> closed s = false -> hunted s (amac a) = true ->
+  step c s (Wake i) = (s, [announce c (amac a)]).
+Proof.
+  unfold loop_is, hunted. intros Hl Hc Hh. simpl. unfold wake. rewrite Hl. simpl.
+  destruct (hunt_find (amac a) (hunt s)) as [t|] eqn:Hf.
+  - apply hunt_find_some in Hf as [_ Hf]. rewrite Hc, Hf. reflexivity.
+  - apply hunt_find_none in Hf. congruence.
 Qed.
 
 Definition stop_inv (i : nat) (a : addr) (s : state) : Prop :=
@@ -406,20 +395,19 @@ Proof.
   apply andb_true_iff in H3 as [A3 B3]. rewrite A1, A2, A3. simpl. auto.
 Qed.
 
-Theorem stop_undone_partial : forall c s0 a i mid hint post,
+Theorem stop_undone : forall c s0 a i mid post,
   cfg_ok c ->
   loop_is s0 i a true -> closed s0 = false ->
   none_of (is_wake_of i) mid -> none_of is_close mid -> none_of (is_start_of (amac a)) mid ->
   none_of (is_start_of (amac a)) post ->
   let s1 := final c s0 (StopHunt (amac a) :: mid) in
   let s2 := set_loops s1 (kill i (loops s1)) in
-  known_C13_shared_ip s1 i = false ->
-  step c s1 (Wake i hint) = (s2, [restore c (amac a)]) /\
+  step c s1 (Wake i) = (s2, [restore c (amac a)]) /\
   loop_is s2 i a false /\
   forall s e out f, In (s, e, out) (trace c s2 post) -> In f out -> forged c f = true ->
     known_C13_probe_router c s e = false -> fedst f <> amac a.
 Proof.
-  intros c s0 a i mid hint post Hc Hl Hcl Hw Hclose Hst Hpost s1 s2 Hk.
+  intros c s0 a i mid post Hc Hl Hcl Hw Hclose Hst Hpost s1 s2.
   assert (Hinv : stop_inv i a s1).
   { unfold s1. simpl. apply (final_inv (stop_inv i a) (stop_ok i (amac a)) c).
     - intros s e. apply stop_inv_step.
@@ -441,51 +429,33 @@ Proof.
   rewrite Heq in Hh. congruence.
 Qed.
 
-(* the full statement (without the K2 hypothesis) is false of the code *)
 Definition wit_m2 : mac := 2199023255554.
-Definition wit_shared_pre : list event :=
-  [StartHunt (mkAddr wit_m1 3232235522); Wake 0 wit_m1;
-   StartHunt (mkAddr wit_m2 3232235522); Wake 1 wit_m2].
 
-Theorem stop_undone_refuted :
-  exists c pre a i mid hint,
-    cfg_ok c /\
-    let s0 := final c init_state pre in
-    loop_is s0 i a true /\ closed s0 = false /\
-    none_of (is_wake_of i) mid /\ none_of is_close mid /\ none_of (is_start_of (amac a)) mid /\
-    let s1 := final c s0 (StopHunt (amac a) :: mid) in
-    (* the stopped host's loop does not restore: it sends a forged announcement to the other MAC and keeps running *)
-    step c s1 (Wake i hint) = (s1, [announce c wit_m2]) /\ loop_is s1 i a true /\ hunted s1 (amac a) = false.
-Proof.
-  exists wit_cfg, wit_shared_pre, (mkAddr wit_m1 3232235522), 0%nat, [], 0.
-  split; [unfold cfg_ok; simpl; lia|]. vm_compute. repeat split; reflexivity.
-Qed.
-
-(* non-vacuity of stop_undone_partial: a concrete run where every hypothesis holds *)
+(* non-vacuity, on the history that defeated the code before the repair of #27: two hunted MACs with the
+   same IPv4 address; the stopped one is restored at its loop's next wake-up, the other keeps being spoofed *)
 Example stop_undone_nonvacuous :
   let c := wit_cfg in
   let a := mkAddr wit_m1 3232235522 in
-  let s0 := final c init_state [StartHunt a; Wake 0 wit_m1; StartHunt (mkAddr wit_m2 3232235523); Wake 1 wit_m2] in
-  let mid := [RxArp (mkPkt 1 wit_m1 wit_m1 3232235522 0 3232235531); Wake 1 wit_m2] in
+  let s0 := final c init_state [StartHunt a; Wake 0; StartHunt (mkAddr wit_m2 3232235522); Wake 1] in
+  let mid := [RxArp (mkPkt 1 wit_m1 wit_m1 3232235522 0 3232235531); Wake 1] in
   loop_is s0 0 a true /\ closed s0 = false /\
   none_of (is_wake_of 0) mid /\ none_of is_close mid /\ none_of (is_start_of (amac a)) mid /\
-  known_C13_shared_ip (final c s0 (StopHunt (amac a) :: mid)) 0 = false /\
-  outputs c s0 (StopHunt (amac a) :: mid ++ [Wake 0 0; Wake 0 0; Wake 1 wit_m2]) =
+  outputs c s0 (StopHunt (amac a) :: mid ++ [Wake 0; Wake 0; Wake 1]) =
     [[]; []; [announce c wit_m2]; [restore c wit_m1]; []; [announce c wit_m2]].
 Proof. vm_compute. repeat split; reflexivity. Qed.
 
 (* ---------------------------------------------------------------- *)
 (* C13_close_stops *)
 
-Theorem close_wake_silent : forall c s i hint,
+Theorem close_wake_silent : forall c s i,
   closed s = true ->
-  snd (step c s (Wake i hint)) = [] /\
-  forall lp, nth_error (loops (fst (step c s (Wake i hint)))) i = Some lp -> alive lp = false.
+  snd (step c s (Wake i)) = [] /\
+  forall lp, nth_error (loops (fst (step c s (Wake i)))) i = Some lp -> alive lp = false.
 Proof.
-  intros c s i hint Hc. simpl. unfold wake.
+  intros c s i Hc. simpl. unfold wake.
   destruct (nth_error (loops s) i) as [lp|] eqn:Hl.
   - destruct (alive lp) eqn:Ha; simpl.
-    + destruct (find_hunt_by_ip _ _ _); rewrite Hc; simpl; (split; [reflexivity|]);
+    + destruct (hunt_find _ _); rewrite Hc; simpl; (split; [reflexivity|]);
         intros lp' H; simpl in H; rewrite (kill_same _ _ _ Hl) in H; inversion H; reflexivity.
     + split; auto. intros lp' H. simpl in H. rewrite Hl in H. inversion H; subst. auto.
   - split; auto. intros lp' H. simpl in H. rewrite Hl in H. discriminate.
@@ -503,15 +473,15 @@ Proof.
 Qed.
 
 (* every run, every Wake after a Close: silent, and that loop has returned *)
-Theorem close_stops_loops : forall c pre post s i hint out,
-  In (s, Wake i hint, out) (trace c (final c init_state (pre ++ [Close])) post) ->
+Theorem close_stops_loops : forall c pre post s i out,
+  In (s, Wake i, out) (trace c (final c init_state (pre ++ [Close])) post) ->
   out = [] /\
-  forall lp, nth_error (loops (fst (step c s (Wake i hint)))) i = Some lp -> alive lp = false.
+  forall lp, nth_error (loops (fst (step c s (Wake i)))) i = Some lp -> alive lp = false.
 Proof.
-  intros c pre post s i hint out Hin.
+  intros c pre post s i out Hin.
   assert (Hc : closed s = true).
-  { apply (closed_along c (final c init_state (pre ++ [Close])) post (s, Wake i hint, out)); auto. apply closed_after_close. }
-  destruct (close_wake_silent c s i hint Hc) as [H1 H2].
+  { apply (closed_along c (final c init_state (pre ++ [Close])) post (s, Wake i, out)); auto. apply closed_after_close. }
+  destruct (close_wake_silent c s i Hc) as [H1 H2].
   apply trace_in in Hin as [s' Hs]. cbn [fst snd] in Hs. split; auto.
   rewrite Hs in H1. exact H1.
 Qed.
@@ -522,8 +492,8 @@ Theorem close_stops_refuted :
     cfg_ok c /\ In (s, e, out) (trace c (final c init_state (pre ++ [Close])) post) /\
     In f out /\ forged c f = true.
 Proof.
-  exists wit_cfg, [StartHunt (mkAddr wit_m1 3232235522); Wake 0 wit_m1],
-    [Wake 0 0; RxArp (mkPkt 1 wit_m1 wit_m1 3232235522 0 3232235531)].
+  exists wit_cfg, [StartHunt (mkAddr wit_m1 3232235522); Wake 0],
+    [Wake 0; RxArp (mkPkt 1 wit_m1 wit_m1 3232235522 0 3232235531)].
   eexists; eexists; eexists; eexists.
   split; [unfold cfg_ok; simpl; lia|].
   split; [vm_compute; right; left; reflexivity|].
@@ -536,7 +506,7 @@ Lemma closed_forged_known c s e f :
 Proof.
   intros Hc Hin Hf. destruct e; simpl in Hin; try contradiction.
   - unfold start_hunt in Hin. destruct (hunt_has _ _); simpl in Hin; contradiction.
-  - destruct (close_wake_silent c s i hint Hc) as [H1 _]. simpl in H1. rewrite H1 in Hin. contradiction.
+  - destruct (close_wake_silent c s i Hc) as [H1 _]. simpl in H1. rewrite H1 in Hin. contradiction.
   - simpl. rewrite Hc. simpl. apply existsb_exists. exists f. auto.
 Qed.
 
@@ -563,8 +533,8 @@ Qed.
 
 Example close_stops_nonvacuous :
   let c := wit_cfg in
-  outputs c init_state [StartHunt (mkAddr wit_m1 3232235522); Wake 0 wit_m1; Close; Wake 0 0; Wake 0 0] =
+  outputs c init_state [StartHunt (mkAddr wit_m1 3232235522); Wake 0; Close; Wake 0; Wake 0] =
     [[]; [announce c wit_m1]; []; []; []] /\
-  loop_is (final c init_state [StartHunt (mkAddr wit_m1 3232235522); Wake 0 wit_m1; Close; Wake 0 0]) 0
+  loop_is (final c init_state [StartHunt (mkAddr wit_m1 3232235522); Wake 0; Close; Wake 0]) 0
           (mkAddr wit_m1 3232235522) false.
 Proof. vm_compute. split; reflexivity. Qed.
